@@ -117,7 +117,8 @@ theorem stmtPhase1_update (sc : Schema) (cfg : Cfg) (t : Table) (args : Args)
     (h : stmtPhase1 sc cfg t args (.update sets w) = .ok (t', item, keys)) :
     t' = (t.map fun r => if matches_ r args w then applySets args sets r else r) ∧
     keys = (t.filter fun r => matches_ r args w).map (keyOf sc) := by
-  simp only [stmtPhase1, apply] at h
+  replace h := (stmtPhase1_update_ok h).2
+  simp only [updatePhase1, apply] at h
   split at h
   · cases h
   · simp only [Except.ok.injEq, Prod.mk.injEq] at h
